@@ -478,6 +478,58 @@ struct verif_stop_callback : verif_stop::cb_base {
 };
 template<class Cb> verif_stop_callback(verif_stop_token, Cb) -> verif_stop_callback<Cb>;
 
+// ------------------------------------------------------------------ shared_ptr / weak_ptr
+// Thin twins that add scheduling points around the operations that touch the reference counts (copy, release,
+// assignment, reset, weak_ptr::lock, use_count); the counting itself is libstdc++'s.  signal, publisher and
+// shared_future manage their shared states with these, so handle drops become schedulable events.
+template<class T> struct verif_shared_ptr;
+namespace verif_sp {
+inline void pt(const void *o) { vrt::point(vrt::K_RMW, o); }
+template<class Y, class T> using conv = std::enable_if_t<std::is_convertible_v<Y *, T *>>;
+}
+template<class T>
+struct verif_shared_ptr : std::shared_ptr<T> {
+    using base = std::shared_ptr<T>;
+    constexpr verif_shared_ptr() noexcept = default;
+    constexpr verif_shared_ptr(std::nullptr_t) noexcept {}
+    template<class Y, class = verif_sp::conv<Y, T>> explicit verif_shared_ptr(Y *p) : base(p) {}
+    template<class Y, class D, class = verif_sp::conv<Y, T>> verif_shared_ptr(Y *p, D d) : base(p, std::move(d)) {}
+    verif_shared_ptr(const verif_shared_ptr &o) noexcept : base(pre(o)) { if (this->get()) verif_sp::pt(this); }
+    verif_shared_ptr(verif_shared_ptr &&o) noexcept = default;
+    template<class Y, class = verif_sp::conv<Y, T>> verif_shared_ptr(const verif_shared_ptr<Y> &o) noexcept : base(pre(o)) { if (this->get()) verif_sp::pt(this); }
+    template<class Y, class = verif_sp::conv<Y, T>> verif_shared_ptr(verif_shared_ptr<Y> &&o) noexcept : base(static_cast<std::shared_ptr<Y> &&>(o)) {}
+    // from the real thing (make_shared, weak_ptr::lock inside the twins)
+    template<class Y, class = verif_sp::conv<Y, T>> verif_shared_ptr(std::shared_ptr<Y> &&o) noexcept : base(std::move(o)) {}
+    template<class Y, class = verif_sp::conv<Y, T>> verif_shared_ptr(const std::shared_ptr<Y> &o) noexcept : base(o) {}
+    ~verif_shared_ptr() { if (this->get()) { verif_sp::pt(this); base::reset(); verif_sp::pt(this); } }
+    verif_shared_ptr &operator=(const verif_shared_ptr &o) noexcept { bool p = this->get() || o.get(); if (p) verif_sp::pt(this); base::operator=(o); if (p) verif_sp::pt(this); return *this; }
+    verif_shared_ptr &operator=(verif_shared_ptr &&o) noexcept { bool p = this->get() != nullptr; if (p) verif_sp::pt(this); base::operator=(static_cast<base &&>(o)); if (p) verif_sp::pt(this); return *this; }
+    template<class Y, class = verif_sp::conv<Y, T>> verif_shared_ptr &operator=(const verif_shared_ptr<Y> &o) noexcept { bool p = this->get() || o.get(); if (p) verif_sp::pt(this); base::operator=(static_cast<const std::shared_ptr<Y> &>(o)); if (p) verif_sp::pt(this); return *this; }
+    template<class Y, class = verif_sp::conv<Y, T>> verif_shared_ptr &operator=(verif_shared_ptr<Y> &&o) noexcept { bool p = this->get() != nullptr; if (p) verif_sp::pt(this); base::operator=(static_cast<std::shared_ptr<Y> &&>(o)); if (p) verif_sp::pt(this); return *this; }
+    verif_shared_ptr &operator=(std::nullptr_t) noexcept { reset(); return *this; }
+    void reset() noexcept { bool p = this->get() != nullptr; if (p) verif_sp::pt(this); base::reset(); if (p) verif_sp::pt(this); }
+    template<class Y> void reset(Y *y) { verif_sp::pt(this); base::reset(y); verif_sp::pt(this); }
+    long use_count() const noexcept { verif_sp::pt(this); long r = base::use_count(); verif_sp::pt(this); return r; }
+private:
+    template<class Y> static const std::shared_ptr<Y> &pre(const verif_shared_ptr<Y> &o) noexcept { if (o.get()) verif_sp::pt(&o); return o; }
+};
+template<class T>
+struct verif_weak_ptr : std::weak_ptr<T> {
+    using base = std::weak_ptr<T>;
+    constexpr verif_weak_ptr() noexcept = default;
+    verif_weak_ptr(const verif_weak_ptr &) noexcept = default;
+    verif_weak_ptr(verif_weak_ptr &&) noexcept = default;
+    verif_weak_ptr &operator=(const verif_weak_ptr &) noexcept = default;
+    verif_weak_ptr &operator=(verif_weak_ptr &&) noexcept = default;
+    template<class Y, class = verif_sp::conv<Y, T>> verif_weak_ptr(const verif_shared_ptr<Y> &o) noexcept : base(static_cast<const std::shared_ptr<Y> &>(o)) {}
+    template<class Y, class = verif_sp::conv<Y, T>> verif_weak_ptr(const verif_weak_ptr<Y> &o) noexcept : base(static_cast<const std::weak_ptr<Y> &>(o)) {}
+    template<class Y, class = verif_sp::conv<Y, T>> verif_weak_ptr &operator=(const verif_shared_ptr<Y> &o) noexcept { base::operator=(static_cast<const std::shared_ptr<Y> &>(o)); return *this; }
+    verif_shared_ptr<T> lock() const noexcept { verif_sp::pt(this); verif_shared_ptr<T> r(base::lock()); verif_sp::pt(this); return r; }
+    bool expired() const noexcept { verif_sp::pt(this); bool r = base::expired(); verif_sp::pt(this); return r; }
+};
+template<class T, class... A>
+verif_shared_ptr<T> verif_make_shared(A &&...a) { return verif_shared_ptr<T>(std::make_shared<T>(std::forward<A>(a)...)); }
+
 } // namespace std
 
 // ------------------------------------------------------------------ the renaming itself
@@ -491,3 +543,6 @@ template<class Cb> verif_stop_callback(verif_stop_token, Cb) -> verif_stop_callb
 #define stop_source         verif_stop_source
 #define stop_token          verif_stop_token
 #define stop_callback       verif_stop_callback
+#define shared_ptr          verif_shared_ptr
+#define weak_ptr            verif_weak_ptr
+#define make_shared         verif_make_shared
